@@ -25,6 +25,29 @@ pub struct Case {
     pub quads: Vec<MQ>,
 }
 
+/// `n` simple statements of varying length (about 60-140 bytes per N-Quads line)
+fn bulk_quads(n: usize, salt: u64) -> Vec<MQ> {
+    (0..n)
+        .map(|i| {
+            let k = i as u64 * 2654435761 % 1000 + salt;
+            let s = if i % 5 == 0 { MT::bn(format!("b{}", i / 3)) } else { MT::iri(format!("http://example.org/subject/{}", i / 3)) };
+            let p = MT::iri(format!("http://example.org/vocab#p{}", i % 7));
+            let o = match i % 4 {
+                0 => MT::iri(format!("http://example.org/object/{k}")),
+                1 => MT::string(format!("value {i} {}", "x".repeat((k % 40) as usize))),
+                2 => MT::lang(format!("valeur \"{i}\"\n"), "fr"),
+                _ => MT::lit(format!("{k}"), xsd("integer")),
+            };
+            let g = match i % 3 {
+                0 => None,
+                1 => Some(MT::iri(format!("http://example.org/graph/{}", i % 11))),
+                _ => Some(MT::bn(format!("g{}", i % 2))),
+            };
+            MQ::new(s, p, o, g)
+        })
+        .collect()
+}
+
 pub struct C03;
 
 // ---------------------------------------------------------------- generators
@@ -696,7 +719,18 @@ impl Check for C03 {
         tier.pick(150_000, 6_000_000)
     }
     fn strategy(_tier: Tier) -> BoxedStrategy<Case> {
-        (prop::collection::vec(quad(), 0..=12), prop::collection::vec((any::<prop::sample::Index>(), any::<prop::sample::Index>()), 0..3))
+        // large outputs (tens of KiB): a serializer that batches or buffers its writes must not lose
+        // or merge statements at block boundaries. Few of these: they are expensive.
+        let bulk = (60usize..=900, 0u64..1000, prop::collection::vec(quad(), 1..=4)).prop_map(|(n, salt, specials)| {
+            let mut quads = bulk_quads(n, salt);
+            // a few arbitrary statements at scattered positions
+            for (k, q) in specials.into_iter().enumerate() {
+                let at = (salt as usize * 31 + k * 97) % (quads.len() + 1);
+                quads.insert(at, q);
+            }
+            Case { quads }
+        });
+        let small = (prop::collection::vec(quad(), 0..=12), prop::collection::vec((any::<prop::sample::Index>(), any::<prop::sample::Index>()), 0..3))
             .prop_map(|(mut quads, dups)| {
                 // re-insert a few copies so that duplicates and shared terms occur
                 for (a, b) in dups {
@@ -707,14 +741,17 @@ impl Check for C03 {
                     }
                 }
                 Case { quads }
-            })
-            .boxed()
+            });
+        prop_oneof![400 => small, 1 => bulk].boxed()
     }
     fn fixed_cases(_tier: Tier, _seed: u64) -> Vec<Case> {
         // every character of the nasty alphabet alone and next to a backslash / quote, in both literal kinds
         let s = MT::iri("http://x/s");
         let p = MT::iri("http://x/p");
         let mut out = vec![Case { quads: vec![] }];
+        for (n, salt) in [(85, 1), (95, 2), (200, 3), (700, 4), (3000, 5), (100, 6), (1500, 7)] {
+            out.push(Case { quads: bulk_quads(n, salt) });
+        }
         for &c in NASTY_CHARS {
             for pat in [format!("{c}"), format!("\\{c}"), format!("{c}\\"), format!("\"{c}\""), format!("{c}{c}")] {
                 out.push(Case {
